@@ -87,6 +87,33 @@ impl<T: El> Interp<T> {
           None => done(None),
         }
       }
+      "last" => {
+        // the provided `Iterator::last` (a `fold`, or whatever overrides either): consumes the iterator; every element
+        // but the last is destroyed inside the operation, the last one is handed to the caller
+        argc(2)?;
+        let i = self.find(r)?;
+        match self.slots[i].kind {
+          Kind::Drain { .. } | Kind::Splice { .. } | Kind::Filter { .. } | Kind::Into { .. } => {}
+          _ => return None,
+        }
+        let res = match core::mem::replace(&mut self.slots[i].kind, Kind::Gone) {
+          Kind::Drain { it, src } => {
+            self.set_borrowed(src, false);
+            scoped(move || it.last())
+          }
+          Kind::Splice { it, src } => {
+            self.set_borrowed(src, false);
+            scoped(move || it.last())
+          }
+          Kind::Filter { it, src } => {
+            self.set_borrowed(src, false);
+            scoped(move || it.last())
+          }
+          Kind::Into { it } => scoped(move || it.last()),
+          _ => unreachable!(),
+        };
+        yield_opt(res, r)
+      }
       "size_hint" => {
         argc(2)?;
         let i = self.find(r)?;
